@@ -484,7 +484,9 @@ class G:
                 elif kind == "expr":
                     v = "${%s}" % self.simple_arg(sc)
                 else:
-                    v = "x${%s}y${cs}" % self.pick(["cs", "'q'"] + [v for v, ty in sc.vars[-2:] if ty == "str"])
+                    v = self.pick(["x${%s}y${cs}", "${%s}-t", "pre-${%s}", "a${cs}b${%s}"]) % self.pick(
+                        ["cs", "'q'", "cs if cn > 2 else 'w'", "ident(cs) if cn > 5 else ident('w')", "cs or ident('z')",
+                         "ident('') or ident(cs)", "cn > 2 and ident(cs)"] + [v for v, ty in sc.vars[-2:] if ty == "str"])
                 attrs.append([p, kind, v])
             node["attrs"] = attrs
         return node
